@@ -41,7 +41,7 @@ ASSUMPTIONS = [
 ]
 BOUNDS = {
     "quick": {"max_depth": "S: 9 (1 dir) / 6 (2 dirs); L: 8 (2 uris) / 6 (3 uris)", "versions": "A,B,broken", "time_budget_s": 60},
-    "thorough": {"max_depth": "S: 14/9/7 for 1/2/3 dirs; L: 12..6 for 2..7 uris", "versions": "A,B,broken,unreadable", "time_budget_s": 780},
+    "thorough": {"max_depth": "S: 40 (fixpoint sought)/9/6 for 1/2/3 dirs; L: 12/8/6/5/4 for 2/3/4/5/7 uris; groups explored one after the other", "versions": "A,B,broken,unreadable", "time_budget_s": 780},
 }
 READY = True
 
@@ -74,15 +74,29 @@ def configs(tier):
         S = [(1, True, -1, False), (2, True, -1, False), (1, False, -1, False), (1, True, -1, True), (2, False, 1, False), (1, True, 1, True)]
         L = [(2, True, 1, False), (3, True, 2, False), (2, False, 1, False)]
     else:
-        S = [(nd, fs, cs, md) for nd in (1, 2, 3) for fs in (True, False) for cs in (-1, 1) for md in (False, True)]
-        L = [(nu, fs, cs, md) for (nu, cs) in ((2, 1), (3, 1), (3, 2), (4, 2), (5, 4), (7, 4)) for fs in (True, False) for md in (False, True)]
+        S = [(nd, fs, cs, md) for nd in (1, 2, 3) for fs in (True, False) for cs in (-1, 1) for md in (False, True) if nd < 3 or md == (cs == 1)]
+        L = [(nu, fs, cs, md) for (nu, cs) in ((2, 1), (3, 1), (3, 2), (4, 2), (5, 4), (7, 4)) for fs in (True, False) for md in (False, True) if nu < 5 or (fs and not md)]
     for nd, fs, cs, md in S:
-        dep = ({1: 9, 2: 6} if tier == "quick" else {1: 14, 2: 9, 3: 7})[nd]
+        dep = ({1: 9, 2: 6} if tier == "quick" else {1: 40, 2: 9, 3: 6})[nd]
         out.append({"mode": "S", "dirs": nd, "uris": 1, "fs_checks": fs, "size": cs, "moddir": md, "unreadable": tier != "quick", "max_depth": dep})
     for nu, fs, cs, md in L:
-        dep = ({2: 8, 3: 6} if tier == "quick" else {2: 12, 3: 9, 4: 8, 5: 7, 7: 6})[nu]
+        dep = ({2: 8, 3: 6} if tier == "quick" else {2: 12, 3: 8, 4: 6, 5: 5, 7: 4})[nu]
         out.append({"mode": "L", "dirs": 1, "uris": nu, "fs_checks": fs, "size": cs, "moddir": md, "unreadable": False, "max_depth": dep})
     return out
+
+
+def groups(tier):
+    """configurations explored together (lock-step levels), with their share of the time budget"""
+    cs = configs(tier)
+    if tier == "quick":
+        return [(60, cs)]
+    return [
+        (200, [c for c in cs if c["mode"] == "S" and c["dirs"] == 1]),
+        (170, [c for c in cs if c["mode"] == "S" and c["dirs"] == 2]),
+        (110, [c for c in cs if c["mode"] == "S" and c["dirs"] == 3]),
+        (170, [c for c in cs if c["mode"] == "L" and c["uris"] <= 3]),
+        (130, [c for c in cs if c["mode"] == "L" and c["uris"] > 3]),
+    ]
 
 
 def cfg_label(c):
@@ -623,17 +637,8 @@ def run_job(job):
 
 
 def post(tier, seed, st):
-    b = BOUNDS[tier]
-    cfgs = configs(tier)
-    bfs.run_bfs(
-        "mc.props.c14",
-        cfgs,
-        st,
-        max_depth=99,
-        max_states=200000,
-        deadline_s=b["time_budget_s"],
-        label=cfg_label,
-    )
+    for budget, cfgs in groups(tier):
+        bfs.run_bfs("mc.props.c14", cfgs, st, max_depth=99, max_states=150000, deadline_s=budget, label=cfg_label)
 
 
 def replay(case):
